@@ -209,14 +209,25 @@ static void case_end(void)
 		if (st == 0) muggle_ring_buffer_destroy(&ring);
 	} else if (strcmp(scen, "abq") == 0) {
 		if (cap <= 0 || muggle_array_blocking_queue_init(&abq, cap) != 0) { printf("F badcase\n"); return; }
+#ifdef C03_NAMES_BY_OFFSET
+		/* the queue object no longer has the documented fields (the driver did not compile against
+		 * them): name whatever mutex / condition variables live inside it by their byte offset, so
+		 * that the scheduler trace, the deadlock detector and the monitor still work */
+		vs_name_range(&abq, sizeof(abq), 1, "abq");
+#else
 		vs_name(&abq.mutex.mtx, "m"); vs_name(&abq.cv_not_empty.cond_var, "ne"); vs_name(&abq.cv_not_full.cond_var, "nf");
+#endif
 		spawn_all(abq_consumer, abq_producer);
 		st = vs_run();
 		printf("F status=%d cnt=%d\n", st, abq.cnt);
 		if (st == 0) muggle_array_blocking_queue_destroy(&abq);
 	} else if (strcmp(scen, "dbuf") == 0) {
 		if (nr != 1 || cap <= 0 || muggle_double_buffer_init(&dbuf, cap, 0) != 0) { printf("F badcase\n"); return; }
+#ifdef C03_NAMES_BY_OFFSET
+		vs_name_range(&dbuf, sizeof(dbuf), 1, "dbuf");
+#else
 		vs_name(&dbuf.mutex.mtx, "m"); vs_name(&dbuf.cv_not_empty.cond_var, "ne"); vs_name(&dbuf.cv_not_full.cond_var, "nf");
+#endif
 		spawn_all(dbuf_reader, dbuf_writer);
 		st = vs_run();
 		printf("F status=%d back=%d\n", st, dbuf.back->cnt);
